@@ -121,6 +121,15 @@ theorem deep_copy_disjoint (f : Nat) (heap heap' : Heap) (v v' : HVal)
 example : deepCopy 5 [.list [.lref 1], .list [.num (.i 1)]] (.lref 0) =
     some ([.list [.lref 1], .list [.num (.i 1)], .list [.num (.i 1)], .list [.lref 2]], .lref 3) := by rfl
 
+/-- the domain of `deep_copy` (fix 55b45e0): the fuel of `deepCopy` is the nesting limit — koto calls
+it with 256 (`HeapEval.deepCopyLimit`) — and a value nested deeper than the fuel (every cyclic value)
+has no deep copy: the implementation raises a runtime error there, so `deep_copy_disjoint` speaks about
+exactly the calls that return -/
+theorem deep_copy_needs_fuel (heap : Heap) (v : HVal) : deepCopy 0 heap v = none := rfl
+
+example : deepCopy 1 [.list [.lref 1], .list []] (.lref 0) = none := by rfl
+example : deepCopyLimit = 256 := rfl
+
 /-! ## immutable values -/
 
 /-- a value without handles (number, string, range, bool, null, tuple of such) denotes the same
@@ -155,7 +164,23 @@ theorem eq_symm {F : FloatOps} (hF : FloatLaws F) (hm : KeyPER (keyEq F)) (a b :
 
 example : KeyPER (keyEq Equal.F0) := F0_keyPER
 
-/-- `!=` is the negation of `==` (the two are implemented separately in the VM) -/
+/-- where `==` is *not* transitive (finding F-C14-3, the model mirrors the code): an integer beyond
+±2^53 and its neighbour both equal the float between them. `KeyPER (keyEq F)` — the hypothesis of
+`eq_symm`, `key_identity`, `map_order_inv` — excludes exactly this; `x` is `9007199254740992.0`. -/
+theorem num_eq_not_transitive_witness (F : FloatOps) (x : UInt64)
+    (h1 : F.eq (F.ofInt 9007199254740993) x = true) (h2 : F.eq x (F.ofInt 9007199254740992) = true) :
+    Num.eq F (.i 9007199254740993) (.f x) = true ∧ Num.eq F (.f x) (.i 9007199254740992) = true ∧
+    Num.eq F (.i 9007199254740993) (.i 9007199254740992) = false := by
+  refine ⟨by simpa [Num.eq, Num.toF] using h1, by simpa [Num.eq, Num.toF] using h2, ?_⟩
+  simp only [Num.eq]
+  decide
+
+/-- (`veq` is total on finite trees. The implementation is partial: each nesting level of a container
+comparison takes 3 of the calling frame's ≤ 255 registers, so operands nested deeper than about 80
+levels — and cyclic ones — raise a runtime error since fixes 0d6eb6a / b752efa; the harness stays
+inside and asserts "error or the right answer, never a panic" outside.)
+
+`!=` is the negation of `==` (the two are implemented separately in the VM) -/
 theorem ne_is_not_eq (F : FloatOps) (mech : Bool) (a b : Val) : vne F mech a b = !veq F mech a b :=
   vne_eq_not_veq F mech a b
 
